@@ -62,6 +62,20 @@ def to5(prog, padbits=None):
     return [int(''.join(map(str, bits[i:i + 5])), 2) for i in range(0, len(bits), 5)]
 
 
+def short_checksum_strings(rng, k, want, tries):
+    """strings hrp + '1' + k (< 6) data characters whose polymod is nevertheless 1: they exist for
+    about one prefix in 32^(6-k) and must be refused (separator position rule pos + 7 <= len)"""
+    out = []
+    for _ in range(tries):
+        hrp = rand_hrp(rng, rng.choice([1, 2, 3, 4, 5, 6]), False)
+        t = _polymod(_expand(hrp) + [0] * k) ^ 1
+        if t >> (5 * k) == 0:
+            out.append((hrp, hrp + '1' + ''.join(CHARSET[(t >> 5 * (k - 1 - i)) & 31] for i in range(k))))
+            if len(out) >= want:
+                break
+    return out
+
+
 def mk_addr(hrp, ver, prog, padbits=None):
     return mk_bech32(hrp, [ver] + to5(prog, padbits))
 
@@ -263,6 +277,11 @@ def generate(rng, tier, boost):
         dec(hrp, s)
         if rng.random() < 0.3:
             dec(rng.choice(hrps), s)
+    # fewer than six checksum characters that still "verify"
+    for k, want, tries in ((5, 12 if big else 4, 4000), (4, 3 if big else 1, 40000 if big else 6000)):
+        for hrp, s in short_checksum_strings(rng, k, want, tries):
+            dec(hrp, s)
+            dec(hrp, s.upper())
     # ---- G. junk -------------------------------------------------------------------
     junk_alpha = ['0123456789', CHARSET + '1', 'bc1tq', '1', CHARSET + '1B', ''.join(chr(c) for c in range(32, 128))]
     for _ in range(6000 if big else 600):
